@@ -7,6 +7,8 @@ TECH = "bounded symbolic execution of the real Go SSA (gosym) + SMT (z3 5.1.0, c
 claimed = {
  "C04": ("For every byte string up to the bound, every chunking/stall/error placement of the underlying reader and every buffer size in range, the real ImmediateReadAhead/BufferedReadAhead.Scan token sequence equals the line-splitting specification, earlier tokens are never overwritten, and a non-EOF error is reported exactly once after all bytes were delivered. The solver covers all byte values; the bound is on lengths.",
          "bounds: stream <= 4 (quick) / 6 (thorough) bytes, buffers 1..3 / 1..5; trusted: go/ssa, gosym interpreter, bytes.IndexByte model, solvers"),
+ "C11": ("Real kf* stages of the scalar helper families (bucket, bucketrange, clamp, sumi..mini, eq/neq/not/and/or/if/unless/switch/coalesce, lt..gte, isint/isnum, len/prefix/suffix/like/substr/upper/lower/tab, csv, sumf..divf) and humanizeInt executed symbolically against reference semantics written in the harness; integer arguments range over all of int64 through the opaque IntStr rendering (strconv round-trip contract), floats over all of float64 through FloatStr.",
+         "bounds in evidence (strings <=2-4 bytes, folds of 2..3 operands, hi |v|<=1e6 + int64 extremes); float-valued helpers (round, percent, sqrt, pow, log*, hf, bytesize, downscale), format, lookup/load/path helpers outside"),
  "C12": ("Real dissect CompileEx/FindSubmatchIndex executed symbolically on structured patterns with symbolic literal bytes and symbolic lines, compared with the specification executed literally in the harness; ignore-case monotonicity over all byte values and ASCII equivalence; results held across pool refills; compile errors.",
          "bounds in evidence (<=2-3 tokens, literals <=2 bytes, lines <=4-6 bytes); patterns with a stray % are outside; trusted: strings.Index and unicode.ToLower models"),
  "C16": ("Real minijson escape/WriteString/WriteInferred/isNumeric and SliceSpaceExpressionContext.json executed on symbolic strings; output run through a strict RFC 8259 recogniser/decoder written in the harness; determinism under every forked map iteration order.",
